@@ -6,6 +6,7 @@ import json
 import numpy as np
 
 DT = 1.0 / 16.0
+PLAIN_CP = dict(logger_level=50, dump_setup=False)
 
 
 def build(kind):
@@ -23,6 +24,13 @@ def build(kind):
     cp = dict(logger_level=50, dump_setup=False)
     if kind == 'sdc':
         return 1, cp, test
+    if kind == 'hookadd':
+        # a convergence controller that registers logging hooks itself (as Adaptivity and the error estimators do), with the plain
+        # controller parameters: what it registers belongs to ITS controller only
+        return 2, cp, dict(test, convergence_controllers={_make_hook_adder(): {}})
+    if kind == 'dtinit':
+        # a level parameter that is legal but has no effect on a fixed-step run: the step size used is `dt`
+        return 1, cp, dict(test, level_params=dict(dt=DT, dt_initial=DT / 2, restol=1e-10))
     if kind == 'mssdc':
         return 3, dict(cp, mssdc_jac=False), test
     if kind == 'errest':
@@ -64,6 +72,25 @@ def build(kind):
         vdp['convergence_controllers'] = {Adaptivity: dict(e_tol=3e-5)} if kind == 'adapt' else {AdaptivityResidual: dict(e_tol=1e-4, max_restarts=3)}
         return 2, dict(cp, mssdc_jac=False, hook_class=[LogStepSize, LogRestarts]), vdp
     raise KeyError(kind)
+
+
+_HOOK_ADDER = []
+
+
+def _make_hook_adder():
+    if not _HOOK_ADDER:
+        from pySDC.core.convergence_controller import ConvergenceController
+        from pySDC.implementations.hooks.log_step_size import LogStepSize
+        from pySDC.implementations.hooks.log_work import LogSDCIterations
+
+        class HookAdder(ConvergenceController):
+            def setup(self, controller, params, description, **kwargs):
+                controller.add_hook(LogStepSize)
+                controller.add_hook(LogSDCIterations)
+                return {'control_order': -30, **super().setup(controller, params, description, **kwargs)}
+
+        _HOOK_ADDER.append(HookAdder)
+    return _HOOK_ADDER[0]
 
 
 class _ProbeHookBase:
@@ -120,13 +147,20 @@ def execute(hist):
     import copy
     from pySDC.implementations.controller_classes.controller_nonMPI import controller_nonMPI
     ctrls = {}
+    shared_cp = dict(PLAIN_CP)
     values = []  # actual result objects of earlier runs, in order
     kept_stats = []  # the statistics dictionaries handed out, in order
     out = []
     for op in hist:
         if op['op'] == 'new':
             np_, cp, desc = build(op['kind'])
-            ctrls[op['c']] = controller_nonMPI(num_procs=np_, controller_params=copy.deepcopy(cp), description=copy.deepcopy(desc))
+            # users hand the SAME controller_params dictionary to several controllers: all kinds whose parameters are the plain
+            # ones share one dictionary object within a history (a controller must not leave anything in it that changes the next)
+            if cp == PLAIN_CP:
+                cp_obj = shared_cp
+            else:
+                cp_obj = copy.deepcopy(cp)
+            ctrls[op['c']] = controller_nonMPI(num_procs=np_, controller_params=cp_obj, description=copy.deepcopy(desc))
             out.append(None)
             continue
         c = ctrls[op['c']]
